@@ -47,7 +47,28 @@ def join_with_empty_side(case, i, detail=None):
     return len(stk) >= 2 and (len(stk[-1]["rows"]) == 0 or len(stk[-2]["rows"]) == 0)
 
 
-PREDS = {f.__name__: f for f in (join_full_not_same_named, join_has_differently_named_keys,
+def _find_pow(e):
+    if not isinstance(e, list):
+        return []
+    out = []
+    if len(e) >= 4 and e[0] == "b" and e[1] == "**":
+        out.append(e)
+    for x in e:
+        if isinstance(x, list):
+            out += _find_pow(x)
+    return out
+
+
+def pow_identity_with_null(case, i, detail=None):
+    """numpy conventions 1 ** nan = 1 and nan ** 0 = 1: the step contains a power and some input cell is null"""
+    st = _step(case, i)
+    if st[0] != "extend" or not any(_find_pow(a[1]) for a in st[1]):
+        return False
+    pre = stack_tops(case, i)[-1]
+    return any(v == "NULL" for r in pre["rows"] for v in r.values())
+
+
+PREDS = {f.__name__: f for f in (pow_identity_with_null, join_full_not_same_named, join_has_differently_named_keys,
                                  right_join_differently_named_keys, join_with_empty_side)}
 
 
